@@ -38,7 +38,7 @@ from hpstatic.xrnorm import atom_rewrite
 from .c05 import subst
 from .common import is_sum
 
-MUTATION_TARGETS = {'holopy/scattering/theory/mielensfunctions.py': ['calculate_al_bl', 'riccati_psin', 'riccati_xin', 'calculate_pil_taul', '_eval', 'spherical_h2n'], 'holopy/scattering/theory/mie_f/miescatlib.py': ['scatcoeffs'], 'holopy/scattering/theory/mie_f/multilayer_sphere_lib.py': ['scatcoeffs_multi'], 'holopy/scattering/scatterer/sphere.py': ['r'], 'holopy/scattering/theory/mie.py': ['_scat_coeffs']}
+MUTATION_TARGETS = {'holopy/scattering/theory/mielensfunctions.py': ['calculate_al_bl', 'riccati_psin', 'riccati_xin', 'calculate_pil_taul', '_eval', 'spherical_h2n'], 'holopy/scattering/theory/mie_f/miescatlib.py': ['scatcoeffs'], 'holopy/scattering/theory/mie_f/multilayer_sphere_lib.py': ['scatcoeffs_multi'], 'holopy/scattering/scatterer/sphere.py': ['r'], 'holopy/scattering/theory/mie.py': ['_scat_coeffs'], 'holopy/scattering/theory/mie_f/mie_specfuncs.py': ['Qratio'], 'holopy/scattering/theory/multisphere.py': ['_scsmfo_setup']}
 
 LEVEL = 'other'
 META = dict(
@@ -46,7 +46,11 @@ META = dict(
     technique='canonical-form equality of the coded Mie formulas (loop bodies as '
               'recurrences symbolic in the index) with textbook oracles; path-'
               'condition check of the single/multi-layer dispatch; attribute-read '
-              '(non-interference) scan of the theory modules',
+              '(non-interference) scan of the theory modules'
+              '; index-convention agreement between the Hankel kind used for xi_n and'
+              " the conjugation of the index; independently derived oracle for Yang's"
+              ' Q_n ratio; slot-by-slot hand-off of the per-sphere quantities to AMNC'
+              'ALC (slots from the Fortran header)',
     level_text='Static formula conformance: the expressions coded are, for all n, x, '
                'm, the textbook ones (B&H 4.47, 4.53, 4.74, 4.88; Yang 2003 eqs. '
                '14-15, 24-29), and the radius/thickness descriptions are '
